@@ -377,7 +377,7 @@ func runC09(c *Ctx, cs Case) {
 	for _, n := range k.Names {
 		r.do(98, SOp{Kind: "list", Mailbox: n})
 	}
-	c.Sim.Vals["c09"] = r
+	c.Sim.SetVal("c09", r)
 	if k.Cfg.MaxKB > 0 {
 		r.quiescenceInvariants()
 	}
@@ -558,7 +558,7 @@ func c09Model(capN int) porcupine.Model {
 
 func postC09(c *Ctx, cs Case) {
 	k := cs.(*c09Case)
-	r, _ := c.Sim.Vals["c09"].(*c09Run)
+	r, _ := c.Sim.Val("c09").(*c09Run)
 	if r == nil || c.Failed() {
 		return
 	}
@@ -612,6 +612,7 @@ func init() {
 		Post:  postC09,
 		Config: func(cs Case) simrt.Config { return simrt.Config{NoJumps: true, MaxSteps: 100000} },
 		BudgetIsViolation: true,
+		RaceCompanion:     "C09R",
 		QuickRuns:         50000,
 		ThoroughRuns:      400000,
 		Rule: "2-4 concurrent client tasks (plus, in a third of the runs, a real retention scan) issue <=14 operations in total on 1-3 mailboxes " +
